@@ -66,6 +66,7 @@ def strat_quantile(tier):
             'scale': st.floats(1e-3, 1e3, allow_nan=False),
             # whole-number values / weights (counts) handed over as integer arrays
             'int_inputs': st.sampled_from(['no', 'no', 'x', 'w', 'both']),
+            'xpow': st.sampled_from([0, 0, 0, -40, 40, -300]),          # values uniformly tiny (1e-12, 1e-90) or large (1e12)
         })
     return _values().flatmap(build)
 
@@ -73,7 +74,7 @@ def strat_quantile(tier):
 # ------------------------------------------------------------------ quantile
 
 def _resolve_alphas(case):
-    xs = np.array(case['xs'], dtype=float)
+    xs = np.array(case['xs'], dtype=float) * 2.0 ** case.get('xpow', 0)        # overall magnitude of the values (exact scaling)
     n = len(xs)
     ws = np.ones(n) if case['ws'] is None else np.array(case['ws'], dtype=float)
     order = np.argsort(xs, kind='stable')
@@ -166,13 +167,14 @@ def strat_var(tier):
             'oned': st.booleans(),
             'int_inputs': st.sampled_from(['no', 'no', 'x', 'w', 'both']),
             'int_dtype': st.integers(0, 3),
+            'xpow': st.sampled_from([0, 0, 0, -40, 40, -100]),
         })
     return st.integers(2, 30).flatmap(build)
 
 
 def run_var(case):
     from elfi.methods.utils import compute_ess, weighted_var
-    cols = [np.array(c, dtype=float) for c in case['cols']]
+    cols = [np.array(c, dtype=float) * 2.0 ** case.get('xpow', 0) for c in case['cols']]
     n = len(cols[0])
     x = cols[0] if (case['oned'] and len(cols) == 1) else np.column_stack(cols)
     ws = None if case['ws'] is None else np.array(case['ws'], dtype=float)
@@ -195,7 +197,8 @@ def run_var(case):
         num = sum(w * (v - xbar) ** 2 for w, v in zip(fw, fx))
         ref = float(num / (V1 - V2 / V1))
         scale = max(abs(float(v)) for v in c) or 1.0
-        if not abs(float(s2[j]) - ref) <= 1e-6 * abs(ref) + 1e-24 * scale * scale:
+        # (1e-300: a variance in the subnormal range cannot be computed to relative accuracy by anyone)
+        if not abs(float(s2[j]) - ref) <= 1e-6 * abs(ref) + max(1e-24 * scale * scale, 1e-300):
             raise Violation('C13:weighted-var', 'weighted_var(x=%r, w=%r)[%d] = %r, reliability-weights formula gives %r'
                             % (c.tolist(), case['ws'], j, float(s2[j]), ref))
     labels = []
